@@ -670,6 +670,17 @@ impl<'s> Walker<'s> {
         self.used.insert(format!("fold:{}", g));
         t
     }
+    /// is there an overlay for the next fold/filter (positional or by ordinal)?  (`Option::filter` has none and is left alone)
+    fn has_fold_overlay(&self) -> bool {
+        let g = format!("F{}", self.folds + 1);
+        if self.ov.folds.contains_key(&g) {
+            return true;
+        }
+        if let Some((blk, Some(e), cnt)) = self.ctx.last() {
+            return self.ov.folds.contains_key(&format!("{}.s{}.F{}", blk, e, cnt[2] + 1));
+        }
+        false
+    }
     fn shape_of(&self, name: &str) -> Option<&Vec<String>> {
         self.ov.shapes.get(name).or_else(|| self.block_alias.get(name).and_then(|a| self.ov.shapes.get(a)))
     }
@@ -712,6 +723,25 @@ impl<'s> Walker<'s> {
             }
             _ => (n, (0..=n).map(|k| if k < n { vec![k] } else { vec![] }).collect()),
         };
+        // R15: `if C { continue; }` as a direct statement of a loop body  ->  `if !(C) { <rest of the body> }`
+        // (Verus does not support `continue` in `for` loops; the two forms are equivalent by definition of `continue`)
+        let mut r15_close = 0usize;
+        if name.starts_with('L') {
+            for st in b.stmts.iter() {
+                if let syn::Stmt::Expr(syn::Expr::If(i), _) = st {
+                    let only_continue = i.else_branch.is_none() && i.then_branch.stmts.len() == 1
+                        && matches!(&i.then_branch.stmts[0], syn::Stmt::Expr(syn::Expr::Continue(c), _) if c.label.is_none());
+                    if only_continue {
+                        let (cs, ce) = self.src.range(i.cond.span());
+                        self.open(cs, "!(", "R15");
+                        self.close(ce, ")", "R15");
+                        let tb = self.src.range(i.then_branch.span());
+                        self.replace(tb, "{", "R15");
+                        r15_close += 1;
+                    }
+                }
+            }
+        }
         for (k, st) in b.stmts.iter().enumerate() {
             let st_start = self.stmt_start(st);
             // expected index of this statement (None if it was inserted by the edit)
@@ -764,6 +794,10 @@ impl<'s> Walker<'s> {
             self.ctx.pop();
         }
         let close = self.src.off(b.brace_token.span.close().start());
+        if r15_close > 0 {
+            let d = self.depth;
+            self.rule(close, close, "}".repeat(r15_close) + "\n", 1, d + 1000, "R15");
+        }
         let has_tail = n > 0 && is_value_tail(&b.stmts[n - 1]);
         if !has_tail {
             if let Some(t) = self.anchor_text(&format!("{}.end", name)) {
@@ -1113,7 +1147,7 @@ impl<'s> Walker<'s> {
                         let lead = if m.args.trailing_punct() { "" } else { ", " };
                         self.close(pc_start, &format!("{}Ghost({})", lead, inv), "R13");
                     }
-                    "filter" if m.args.len() == 1 => {
+                    "filter" if m.args.len() == 1 && self.has_fold_overlay() => {
                         let pred = self.fold_overlay("filter", es);
                         self.open(es, "verif_filter(", "R13");
                         self.replace((re, po_end), ", ", "R13");
